@@ -607,6 +607,30 @@ class Program:
             b = self.bodies.get(name)
             if b is not None and b.kind == "closure":
                 return self.roots_of(b.j.get("root", name))
+            # the Drop impl of a type a change introduced (an RAII scope) runs where its values are dropped - the path reader
+            # reads it there: its code belongs to the functions that drop such a value
+            if b is not None and (b.j.get("impl_trait") or "").startswith("std::ops::Drop") and name.endswith("::drop"):
+                adt = re.sub(r"<.*$", "", b.j.get("impl_self") or "")
+                if adt and self.is_new_type(adt) and not getattr(self, "_in_drop_roots", False):
+                    self._in_drop_roots = True
+                    try:
+                        sites = set()
+                        for ob in self.bodies.values():
+                            if ob.name == name:
+                                continue
+                            for blk in ob.blocks:
+                                tm = blk["term"]
+                                if tm["k"] == "drop" and not blk.get("cleanup") and adt in (tm.get("ty") or ""):
+                                    sites.add(ob.name)
+                        out = []
+                        for s_ in sorted(sites):
+                            for r_ in self.roots_of(s_):
+                                if r_ not in out:
+                                    out.append(r_)
+                        if out:
+                            return out
+                    finally:
+                        self._in_drop_roots = False
             return [name]
         sites = set()
         for b in self.bodies.values():
